@@ -161,7 +161,7 @@ func validWire(dec string) ([]byte, func([]byte)) {
 	return nil, nil
 }
 
-func mutateWire(valid []byte, cls string, v int, streaming bool, seed int64) []byte {
+func mutateWire(dec string, valid []byte, cls string, v int, streaming bool, seed int64) []byte {
 	rng := vio.Rand("wire/" + cls + string(rune('a'+v)))
 	_ = seed
 	out := append([]byte{}, valid...)
@@ -192,6 +192,20 @@ func mutateWire(valid []byte, cls string, v int, streaming bool, seed int64) []b
 		if v%2 == 0 {
 			return out[:4]
 		}
+	case "lenTiny":
+		// a frame whose length prefix announces fewer bytes than any encoder produces (0..5), followed by exactly that many bytes
+		// and then the rest of a valid frame; for the varint-prefixed header also as a non-minimal two-byte varint
+		n := v % 6
+		if dec == "hdr" {
+			body := valid[1:]
+			pre := []byte{byte(n)}
+			if v >= 6 {
+				pre = []byte{0x80 | byte(n), 0x00}
+			}
+			return append(append(pre, body[:n]...), valid...)
+		}
+		binary.LittleEndian.PutUint32(out, uint32(n))
+		return append(append([]byte{}, out[:4+n]...), valid...)
 	case "lenOver":
 		binary.LittleEndian.PutUint32(out, uint32(100001+v*65536))
 	case "lenMax32":
@@ -265,7 +279,7 @@ func init() {
 				cache[w.In.Dec] = d
 				d.fn(v) // warm up (pools, lazily initialised tables)
 			}
-			in := mutateWire(d.valid, w.In.Cls, w.In.V, streaming[w.In.Dec], vio.Seed())
+			in := mutateWire(w.In.Dec, d.valid, w.In.Cls, w.In.V, streaming[w.In.Dec], vio.Seed())
 			var ms0, ms1 runtime.MemStats
 			runtime.ReadMemStats(&ms0)
 			pan := vio.Try(func() { d.fn(in) })
